@@ -26,6 +26,26 @@ add(
     "DESIGN.md §4 C12",
 )
 
+add(
+    "C05", "exploration",
+    "bounded-exhaustive (glob, path) enumeration + Hypothesis model-guided paths; sandwich oracle narrow <= matches() <= wide from an independent glob model",
+    "All globs up to length 5 (quick) / 6 (thorough) over {a . / * \\} are compiled by the real AnnotationsItem and evaluated on all ~56k paths up to "
+    "length 6 over a 6-letter alphabet (2*10^8 real matches() calls in quick), judged by an independent tokenizer-based model; random longer "
+    "globs over a larger alphabet (regex metacharacters, non-ASCII, newline) with paths derived from the glob; sampled pairs go through a real "
+    "REUSE.toml and `reuse lint --json`. The path quantifier is bounded by length, not decided by automaton inclusion (see DESIGN.md §9).",
+    "Trusts vlib/ref/globlang.py (cross-checked every run against a backtracking matcher). '**/' matching zero directories is allowed, not required.",
+    "DESIGN.md §4 C05",
+)
+add(
+    "C20", "exploration",
+    "Hypothesis over (holder, year, prefix) triples and notice sets; round trip build -> read and merge invariants against an independent notice reader",
+    "Tens of thousands of generated notices are built by make_copyright_line, read back bare and inside five comment syntaxes, and compared with the "
+    "by-construction line and (prefix, year, holder) groups; generated notice sets are merged and judged holder-wise (same holders, one line each, "
+    "year span covers all stated years); the same through `reuse annotate [--merge-copyrights]` + `reuse lint --json`.",
+    "Prefix table and notice syntax are re-stated from the man page; holders that are ambiguous by grammar (leading year/symbol, trailing comment terminator) are not generated.",
+    "DESIGN.md §4 C20",
+)
+
 NOT_BUILT = "check not built yet in this revision of /verif (planned in DESIGN.md §4; property-based testing applies)"
 
 
